@@ -252,6 +252,10 @@ func ruleConcurrency(c *Ctx) {
 			for _, s := range c.P.callSitesOf(other.fn) {
 				if s.Parent() == fn && before[s].locked {
 					sections[before[s].section] = true
+				} else if s.Parent() == fn && other.fn != fn {
+					// called without the lock: the helper takes it itself (checked for the helper), which makes
+					// the call a critical section of its own within this operation
+					sections[s.(ssa.Instruction)] = true
 				}
 			}
 		}
